@@ -70,6 +70,9 @@ package code39
 //@   ensures (result1 == nil) == (result0 != nil)
 //@   ensures result1 == nil ==> typeis(result0, "*utils.base1DCodeIntCS") && c39Res(result0).base1DCode.kind == barcode.TypeCode39 && c39Res(result0).base1DCode.color == color
 //@   ensures result1 == nil && !fullASCIIMode ==> c39Res(result0).base1DCode.content == content
+//@   ensures result1 == nil && fullASCIIMode ==> len(c39Res(result0).base1DCode.content) == exOff(bytes(content), len(content))
+//@   ensures result1 == nil && fullASCIIMode ==> (forall k int :: 0 <= k && k < len(content) && exW(content[k]) == 1 ==> c39Res(result0).base1DCode.content[exOff(bytes(content), k)] == content[k])
+//@   ensures result1 == nil && fullASCIIMode ==> (forall k int :: 0 <= k && k < len(content) && exW(content[k]) == 2 ==> c39Res(result0).base1DCode.content[exOff(bytes(content), k)] == exS(content[k]) && c39Res(result0).base1DCode.content[exOff(bytes(content), k) + 1] == exL(content[k]))
 //@   ensures result1 == nil ==> c39Data(c39Res(result0).base1DCode.content)
 //@   ensures result1 == nil ==> c39Res(result0).checksum == c39Sum(bytes(c39Res(result0).base1DCode.content), len(c39Res(result0).base1DCode.content)) % 43
 //@   ensures result1 == nil ==> c39Res(result0).base1DCode.BitList.count == 13 * c39Len(c39Res(result0).base1DCode.content, includeChecksum) - 1
@@ -97,6 +100,9 @@ package code39
 //@   ensures (result1 == nil) == (result0 != nil)
 //@   ensures result1 == nil ==> typeis(result0, "*utils.base1DCodeIntCS") && c39Res(result0).base1DCode.kind == barcode.TypeCode39 && c39Res(result0).base1DCode.color == barcode.ColorScheme16
 //@   ensures result1 == nil && !fullASCIIMode ==> c39Res(result0).base1DCode.content == content
+//@   ensures result1 == nil && fullASCIIMode ==> len(c39Res(result0).base1DCode.content) == exOff(bytes(content), len(content))
+//@   ensures result1 == nil && fullASCIIMode ==> (forall k int :: 0 <= k && k < len(content) && exW(content[k]) == 1 ==> c39Res(result0).base1DCode.content[exOff(bytes(content), k)] == content[k])
+//@   ensures result1 == nil && fullASCIIMode ==> (forall k int :: 0 <= k && k < len(content) && exW(content[k]) == 2 ==> c39Res(result0).base1DCode.content[exOff(bytes(content), k)] == exS(content[k]) && c39Res(result0).base1DCode.content[exOff(bytes(content), k) + 1] == exL(content[k]))
 //@   ensures result1 == nil ==> c39Data(c39Res(result0).base1DCode.content)
 //@   ensures result1 == nil ==> c39Res(result0).checksum == c39Sum(bytes(c39Res(result0).base1DCode.content), len(c39Res(result0).base1DCode.content)) % 43
 //@   ensures result1 == nil ==> c39Res(result0).base1DCode.BitList.count == 13 * c39Len(c39Res(result0).base1DCode.content, includeChecksum) - 1
